@@ -4,7 +4,7 @@ the effective tableau of the Runge–Kutta stepper as its loops consume it, the 
 import sympy as sp
 from fractions import Fraction
 
-from bsa import nalg, sym
+from bsa import cfg, nalg, sym
 from bsa.hir import Missing, callee, peel, place, pp, walk
 
 RK_IMPLS = {"RKCoefficients45": ("ivp::rk::RKCoefficients45<N>", 6), "RK23Coefficients": ("ivp::rk::RK23Coefficients<N>", 4)}
@@ -362,6 +362,14 @@ def bdf_residuals(F, impl_selfty, O):
             raise Missing("residual closure %s has %d parameters" % (name, len(pnames)))
         it.root_alias[pnames[0]] = "self"
         tt, yy = sym.S("t_arg"), sym.S("y_arg")
+        # immutable lets in front of the closure that it may capture (`let (higher, lower) = (self.higher_coefficients, …)`): evaluate what can be evaluated
+        for st in cfg.preceding_statements(step["body"], cl):
+            if st.get("k") == "LetS" and "init" in st and st["init"].get("k") != "Closure" and not any(x.get("k") == "Call" and "ovl" in x for x in walk(st["init"])) \
+                    and not any(x.get("k") in ("Try", "MCall") and x.get("name") in ("secant", "runge_kutta") for x in walk(st["init"])):
+                try:
+                    it.run_stmt(st)
+                except Exception:
+                    pass
         try:
             v = it.apply_closure(sym.ClosureVal(cl, None), [sym.S("self"), tt, yy, sym.Opaque("data")], cl)
         except sym.Return as r:
